@@ -181,7 +181,7 @@ static void vh_flush_stats (void)
 	/* distinct hashes are dumped raw so the driver can union across shards */
 	{	size_t j ; fprintf (vh_out, "{\"t\":\"hashes\",\"h\":[") ; int first = 1 ;
 		for (j = 0 ; j < vh_set_cap ; j++) if (vh_set [j])
-		{	fprintf (vh_out, "%s\"%" PRIx64 "\"", first ? "" : ",", vh_set [j]) ; first = 0 ; vh_set [j] = 0 ; }
+		{	fprintf (vh_out, "%s%" PRIu64, first ? "" : ",", vh_set [j]) ; first = 0 ; vh_set [j] = 0 ; }
 		fprintf (vh_out, "]}\n") ; vh_set_n = 0 ;
 		}
 	fflush (vh_out) ;
